@@ -53,7 +53,7 @@ func extCrit(x *x509.Certificate, oid []int) int {
 func pkTerm(x *x509.Certificate) string {
 	switch k := x.PublicKey.(type) {
 	case *rsa.PublicKey:
-		return fmt.Sprintf("(PkRSA %d)", k.Size())
+		return fmt.Sprintf("(PkRSA %d)", k.N.BitLen())
 	case *ecdsa.PublicKey:
 		return fmt.Sprintf("(PkEC %d)", k.Curve.Params().BitSize)
 	case ed25519.PublicKey:
@@ -302,7 +302,7 @@ func chainMods() []chainMod {
 	add("leaf-is-ca", false, leafOnly(func(s *CertSpec) { s.BC = true; s.IsCA = true; s.MaxPathLen = -1 }))
 	add("leaf-bc-notca", true, leafOnly(func(s *CertSpec) { s.BC = true; s.IsCA = false; s.MaxPathLen = -1 }))
 	// --- leaf keys
-	for _, k := range []string{"rsa1024", "ec224", "ed25519"} {
+	for _, k := range []string{"rsa1024", "rsa2040", "rsa2050", "ec224", "ed25519"} {
 		k := k
 		add("leaf-key-"+k, false, leafOnly(func(s *CertSpec) { s.KeyName = k }))
 	}
